@@ -396,11 +396,11 @@ func runC20(c *Ctx) error {
 	}
 	var lines []string
 	type job struct {
-		src      string
-		off, on  string
-		want     string
-		wantAt   string
-		feat     map[string]bool
+		src     string
+		off, on string
+		want    string
+		wantAt  string
+		feat    map[string]bool
 	}
 	var jobs []job
 	for i := 0; i < n; i++ {
